@@ -22,7 +22,7 @@ def generate(tier, seed):
     for name in sources.PROTEINS:
         cases.append({"kind": "file", "file": name, "seed": "%d:%s" % (seed, name), "cost": 200})
     k = 0
-    reps = 6 if tier == "quick" else 80
+    reps = 6 if tier == "quick" else 400
     for rep in range(reps):
         for f in list(fragments.FRAGMENTS) + ["dna:DA", "dna:DG"]:
             cases.append({"kind": "fragment", "frag": f, "seed": "%d:f:%d" % (seed, k), "cost": 25})
@@ -30,7 +30,7 @@ def generate(tier, seed):
         for ion in fragments.IONS:
             cases.append({"kind": "fragment", "frag": "ion:" + ion, "seed": "%d:f:%d" % (seed, k), "cost": 25})
             k += 1
-    n = 250 if tier == "quick" else 3000
+    n = 250 if tier == "quick" else 15000
     for i in range(n):
         cases.append({"kind": "cutout", "seed": "%d:c:%d" % (seed, i), "cost": 25})
     return cases
